@@ -10,6 +10,9 @@ pub struct OrderedProbe {
     /// how many obtained messages per (dir, channel index) were already verified
     checked: [Vec<usize>; 2],
     pub expect_complete: bool,
+    /// the scenario lets the application fall behind on a small budget: a disconnect for exhausted channel
+    /// memory is then the documented outcome and ends the obligations; a silent stall is not
+    pub lazy_app: bool,
 }
 
 impl OrderedProbe {
@@ -17,6 +20,7 @@ impl OrderedProbe {
         OrderedProbe {
             checked: [vec![], vec![]],
             expect_complete: true,
+            lazy_app: false,
         }
     }
 
@@ -73,6 +77,10 @@ impl Probe for OrderedProbe {
     fn on_tick_end(&mut self, l: &Link) -> Result<(), Violation> {
         for e in 0..2 {
             if let Some(r) = l.ends.disconnect_reason(e) {
+                if self.lazy_app && format!("{:?}", r).contains("MaxMemoryReached") {
+                    self.expect_complete = false;
+                    return Ok(());
+                }
                 return Err(Violation::new(
                     format!("C01/disconnected/{}", reason_class(&r)),
                     format!(
@@ -245,6 +253,35 @@ pub fn long_scenarios(kind: Kind, probe: fn() -> Box<dyn Probe>) -> Vec<LinkScen
     out
 }
 
+fn lazy_probe() -> Box<dyn Probe> {
+    let mut p = OrderedProbe::new();
+    p.lazy_app = true;
+    Box::new(p)
+}
+
+/// an application that may skip draining for up to three ticks on a 12 000-byte budget: the second message
+/// (7200 B, sliced) can meet a receive channel that still holds the first (6000 B). Either somebody is
+/// disconnected for channel memory, or everything arrives: nothing may be dropped silently
+pub fn lazy_scenarios() -> Vec<LinkScenario<fn() -> Box<dyn Probe>>> {
+    let mut out = vec![];
+    for (dir, second) in [(0usize, 7200usize), (1, 7200), (0, 1100)] {
+        let mut cfg = LinkCfg::base(
+            &format!("budget 12000, 6000 at tick 0 and {} at tick 2, application may skip drains, dir{}", second, dir),
+            vec![Chan::new(0, Kind::Ordered, 12_000, 300)],
+            vec![Chan::new(0, Kind::Ordered, 12_000, 300)],
+        );
+        cfg.dt_ms = vec![100];
+        cfg.horizon = 4;
+        cfg.tail = 12;
+        cfg.fates = vec![crate::link::Fate::Ok];
+        cfg.drains = vec![crate::link::Drain::End, crate::link::Drain::Skip];
+        cfg.allow_reverse = false;
+        cfg.script = vec![Send { tick: 0, dir, ch: 0, len: 6000 }, Send { tick: 2, dir, ch: 0, len: second }, Send { tick: 2, dir, ch: 0, len: 9 }];
+        out.push(LinkScenario { cfg, probe: lazy_probe as fn() -> Box<dyn Probe> });
+    }
+    out
+}
+
 pub fn run(tier: Tier) -> i32 {
     let mut rep = Report::new("C01", tier);
     rep.rule("M2: every schedule with <= d deviations (per packet: drop/dup/delay1/delay2/dup-late; per batch: reverse; per tick: application skips draining) over the first 5 ticks of each scenario (script x tick length x direction), then a fault-free tail; oracle: obtained is a byte-identical prefix of submitted after every drain, equal after the tail, nobody disconnects");
@@ -255,6 +292,9 @@ pub fn run(tier: Tier) -> i32 {
     if rep.machinery.is_none() {
         let long = long_scenarios(Kind::Ordered, (|| Box::new(OrderedProbe::new()) as Box<dyn Probe>) as fn() -> Box<dyn Probe>);
         super::run_link_scenarios_from(&mut rep, "m2-long", &long[..tier.pick(1, 2)], tier.pick(1, 2), tier.pick(120.0, 3000.0), 1000);
+    }
+    if rep.machinery.is_none() {
+        super::run_link_scenarios_from(&mut rep, "m2-lazy-app", &lazy_scenarios(), tier.pick(3, 4), tier.pick(120.0, 3000.0), 2000);
     }
     {
         let ks: Vec<usize> = tier.pick(vec![257, 1100], vec![255, 256, 257, 1024, 1100, 5000]);
@@ -279,6 +319,9 @@ pub fn replay(j: &J) -> i32 {
     };
     if j.get("kind").and_then(|k| k.as_str()) == Some("trace") {
         return super::soup::replay_soup(j, Kind::Ordered, super::soup::O_ORDER);
+    }
+    if j.get("scenario_index").and_then(|x| x.as_i()).unwrap_or(0) >= 2000 {
+        return super::replay_link_from(&lazy_scenarios(), j, 2000);
     }
     if j.get("scenario_index").and_then(|x| x.as_i()).unwrap_or(0) >= 1000 {
         let long = long_scenarios(Kind::Ordered, (|| Box::new(OrderedProbe::new()) as Box<dyn Probe>) as fn() -> Box<dyn Probe>);
